@@ -2,6 +2,6 @@ SPECIFICATION Spec
 CONSTANTS
   Base = "fragdef"
   MaxOps = 0
-  OpKinds = {"free", "unk", "swap", "large", "spare"}
+  OpKinds = {"free", "unk", "swap", "large", "spare", "opt"}
 INVARIANTS LayoutInvariant Emit
 CHECK_DEADLOCK FALSE
